@@ -865,6 +865,9 @@ def generate(rng: random.Random, profile: Optional[Dict[str, Any]] = None) -> Di
             if rng.random() < 0.25:
                 x = gen.with_blank_runs(rng, x)
             focus_e.append((x, None))
+        if rng.random() < 0.3:
+            a, b = gen.near_twins(rng)
+            focus_e[:2] = [(a, None), (b, None)]
     else:
         focus_e = [gen.pick_entry(rng, corpus, names_only) for _ in range(n_focus)]
     focus = [t for t, _ in focus_e]
